@@ -214,3 +214,205 @@ func sortedIntKeys(m map[int]*Term) []int {
 	sort.Ints(ks)
 	return ks
 }
+
+// ---------------------------------------------------------------------------------------------
+// Compiled expressions: regexp.Compile / MustCompile give an opaque handle carrying the concrete
+// pattern; (*Regexp).MatchString uses the simulation above, (*Regexp).FindStringIndex a symbolic
+// version of the library's backtracker (leftmost start, then first alternative in priority
+// order; a (pc, position) pair is explored once, like the visited bitmap of regexp/backtrack.go).
+
+type regexHandle struct {
+	pattern string
+	prog    *syntax.Prog
+}
+
+func init() {
+	intrinsics["regexp.Compile"] = inRegexpCompile
+	intrinsics["regexp.MustCompile"] = inRegexpMustCompile
+	intrinsics["(*regexp.Regexp).MatchString"] = inRegexpMethodMatch
+	intrinsics["(*regexp.Regexp).FindStringIndex"] = inRegexpFindStringIndex
+	intrinsics["(*regexp.Regexp).String"] = func(e *Engine, st *State, fn *ssa.Function, a []Value, s ssa.Instruction) []Outcome {
+		return one(st, e.mkStr(a[0].(*OpaqueV).data.(*regexHandle).pattern))
+	}
+}
+
+func (e *Engine) compileRegex(args []Value) (*regexHandle, error) {
+	pat, ok := argString(args[0])
+	if !ok {
+		panic(unsupported("regexp.Compile with a symbolic pattern"))
+	}
+	re, err := syntax.Parse(pat, syntax.Perl)
+	if err != nil {
+		return nil, err
+	}
+	prog, err := syntax.Compile(re.Simplify())
+	if err != nil {
+		return nil, err
+	}
+	return &regexHandle{pat, prog}, nil
+}
+
+func inRegexpCompile(e *Engine, st *State, fn *ssa.Function, args []Value, site ssa.Instruction) []Outcome {
+	h, err := e.compileRegex(args)
+	if err != nil {
+		return one(st, &TupleV{[]Value{&PtrV{}, e.newOpaqueError(err.Error(), nil, nil, e.mkStr(err.Error()))}})
+	}
+	e.nextOpq++
+	return one(st, &TupleV{[]Value{&OpaqueV{kind: "regexp", id: e.nextOpq, data: h}, &IfaceV{}}})
+}
+
+func inRegexpMustCompile(e *Engine, st *State, fn *ssa.Function, args []Value, site ssa.Instruction) []Outcome {
+	h, err := e.compileRegex(args)
+	if err != nil {
+		panic(unsupported("regexp.MustCompile panics: " + err.Error()))
+	}
+	e.nextOpq++
+	return one(st, &OpaqueV{kind: "regexp", id: e.nextOpq, data: h})
+}
+
+func (e *Engine) regexArgs(args []Value) (*regexHandle, *StrV, int) {
+	o, ok := args[0].(*OpaqueV)
+	if !ok || o.kind != "regexp" {
+		panic(unsupported("method call on an unknown *regexp.Regexp"))
+	}
+	s := args[1].(*StrV)
+	n := e.strBoundOrFail(s)
+	if n > e.bound("regex_len", 40) {
+		panic(unsupported("regexp subject longer than the regex_len bound"))
+	}
+	return o.data.(*regexHandle), s, n
+}
+
+func inRegexpMethodMatch(e *Engine, st *State, fn *ssa.Function, args []Value, site ssa.Instruction) []Outcome {
+	h, s, n := e.regexArgs(args)
+	e.note("regexp.MatchString simulated symbolically (ASCII subject, bounded length)")
+	return one(st, e.regexMatch(h.prog, s, n))
+}
+
+// regexEmpty: the zero-width assertion op holds at position i of s.
+func (e *Engine) regexEmpty(s *StrV, i int, op syntax.EmptyOp) *Term {
+	tm := e.tm
+	byteAt := func(i int) *Term { return e.arrRead(s.arr, tm.Add(s.off, e.c64(uint64(i)))) }
+	pos := e.c64(uint64(i))
+	atEnd := tm.Eq(pos, s.len)
+	hasCur := tm.Ult(pos, s.len)
+	c := tm.True
+	if op&syntax.EmptyBeginText != 0 {
+		c = tm.And(c, tm.Bool(i == 0))
+	}
+	if op&syntax.EmptyBeginLine != 0 && i > 0 {
+		c = tm.And(c, tm.Eq(byteAt(i-1), tm.BV('\n', 8)))
+	}
+	if op&syntax.EmptyEndText != 0 {
+		c = tm.And(c, atEnd)
+	}
+	if op&syntax.EmptyEndLine != 0 {
+		c = tm.And(c, tm.Or(atEnd, tm.And(hasCur, tm.Eq(byteAt(i), tm.BV('\n', 8)))))
+	}
+	if op&(syntax.EmptyWordBoundary|syntax.EmptyNoWordBoundary) != 0 {
+		prevW := tm.False
+		if i > 0 {
+			prevW = e.isWordByte(byteAt(i - 1))
+		}
+		curW := tm.And(hasCur, e.isWordByte(byteAt(i)))
+		boundary := tm.Ne(prevW, curW)
+		if op&syntax.EmptyWordBoundary != 0 {
+			c = tm.And(c, boundary)
+		}
+		if op&syntax.EmptyNoWordBoundary != 0 {
+			c = tm.And(c, tm.Not(boundary))
+		}
+	}
+	return c
+}
+
+type btRes struct {
+	found *Term
+	end   *Term
+}
+
+// regexFind: (found, start, end) of the leftmost-first match of prog in s (length bound n).
+func (e *Engine) regexFind(prog *syntax.Prog, s *StrV, n int) (*Term, *Term, *Term) {
+	tm := e.tm
+	type key struct{ pc, i int }
+	memo := map[key]*btRes{}
+	fail := &btRes{tm.False, e.c64(0)}
+	var bt func(pc, i int) *btRes
+	bt = func(pc, i int) *btRes {
+		k := key{pc, i}
+		if r, ok := memo[k]; ok {
+			return r // also the "being explored" marker: an empty loop is not entered twice
+		}
+		memo[k] = fail
+		inst := &prog.Inst[pc]
+		var r *btRes
+		switch inst.Op {
+		case syntax.InstAlt, syntax.InstAltMatch:
+			r1 := bt(int(inst.Out), i)
+			r2 := bt(int(inst.Arg), i)
+			r = &btRes{tm.Or(r1.found, r2.found), tm.Ite(r1.found, r1.end, r2.end)}
+		case syntax.InstCapture, syntax.InstNop:
+			r = bt(int(inst.Out), i)
+		case syntax.InstEmptyWidth:
+			c := e.regexEmpty(s, i, syntax.EmptyOp(inst.Arg))
+			r1 := bt(int(inst.Out), i)
+			r = &btRes{tm.And(c, r1.found), r1.end}
+		case syntax.InstMatch:
+			r = &btRes{tm.True, e.c64(uint64(i))}
+		case syntax.InstFail:
+			r = fail
+		default:
+			if i >= n {
+				r = fail
+				break
+			}
+			b := e.arrRead(s.arr, tm.Add(s.off, e.c64(uint64(i))))
+			var m *Term
+			switch inst.Op {
+			case syntax.InstRuneAny:
+				m = tm.True
+			case syntax.InstRuneAnyNotNL:
+				m = tm.Ne(b, tm.BV('\n', 8))
+			default:
+				m = e.runeCond(inst, b)
+			}
+			m = tm.And(m, tm.Ult(e.c64(uint64(i)), s.len))
+			if m.IsFalse() {
+				r = fail
+				break
+			}
+			r1 := bt(int(inst.Out), i+1)
+			r = &btRes{tm.And(m, r1.found), r1.end}
+		}
+		memo[k] = r
+		return r
+	}
+	found, start, end := tm.False, e.c64(0), e.c64(0)
+	for st := n; st >= 0; st-- {
+		r := bt(prog.Start, st)
+		here := tm.And(tm.Ule(e.c64(uint64(st)), s.len), r.found)
+		found = tm.Or(here, found)
+		start = tm.Ite(here, e.c64(uint64(st)), start)
+		end = tm.Ite(here, r.end, end)
+	}
+	return found, start, end
+}
+
+func inRegexpFindStringIndex(e *Engine, st *State, fn *ssa.Function, args []Value, site ssa.Instruction) []Outcome {
+	h, s, n := e.regexArgs(args)
+	e.note("regexp.FindStringIndex: symbolic backtracker (leftmost-first, ASCII subject, bounded length)")
+	found, start, end := e.regexFind(h.prog, s, n)
+	var outs []Outcome
+	if e.feasible(st, found) {
+		s2 := st.clone()
+		s2.assume(found)
+		o := e.newObject("loc", nil)
+		s2.mem.set(o, &CellsV{[]Value{start, end}})
+		outs = append(outs, Outcome{st: s2, ret: &SliceV{obj: o, off: e.c64(0), len: e.c64(2), cap: e.c64(2), max: 2}})
+	}
+	if e.feasible(st, e.tm.Not(found)) {
+		st.assume(e.tm.Not(found))
+		outs = append(outs, Outcome{st: st, ret: &SliceV{off: e.c64(0), len: e.c64(0), cap: e.c64(0)}})
+	}
+	return outs
+}
